@@ -107,6 +107,17 @@ def impl_eval(case):
                 why = f'cut at {n}: vbs_bytes_to_list ended with {type(fexc).__name__}, not the library data error'
             elif (fexc is None) != (exc is None) or (fexc is None and lst != back):
                 why = f'cut at {n}: vbs_bytes_to_list and VbsReader disagree on the truncated bytes'
+            else:
+                # the reader handed to list() / tuple() (which ask an iterator for a length hint first): the same again
+                for ctor in (list, tuple):
+                    try:
+                        got2, cexc = list(ctor(mciipm.VbsReader(io.BytesIO(data[:n]), blocked=blocked))), None
+                    except Exception as ex:  # noqa
+                        got2, cexc = None, ex
+                    if cexc is not None and not isinstance(cexc, mciipm.MciIpmDataError):
+                        why = f'cut at {n}: {ctor.__name__}(reader) ended with {type(cexc).__name__}, not the library data error'
+                    elif (cexc is None) != (exc is None) or (cexc is None and got2 != back):
+                        why = f'cut at {n}: {ctor.__name__}(reader) and a loop over the reader disagree on the truncated bytes'
         if why is None:
             k = expected_count(recs, blocked, n, len(data))
             if back != recs[:k]:
